@@ -6,6 +6,11 @@ let to_op = function
   | L [A "send"; l] -> Send (to_line l)
   | L [A "recv"; k] -> Recv (to_nat k)
   | _ -> failwith "op"
+let to_gop = function
+  | L [A "send"; l] -> GSend (to_line l)
+  | A "open" -> GOpen
+  | L [A "next"; j] -> GNext (to_nat j)
+  | _ -> failwith "gop"
 let handle = function
   | L [A "rle_encode"; s] -> of_str (rle_encode (to_str s))
   | L [A "rle_decode"; s] -> of_str (rle_decode (to_str s))
@@ -15,5 +20,10 @@ let handle = function
       (* returns (told delivered) after the ops *)
       let (_, r) = run (to_list to_op ops) in
       L [of_nat r.told; of_list of_n r.delivered]
+  | L [A "genqueue"; ops] ->
+      (* returns (told delivered live) after the ops: live = 1/0 per generator *)
+      let st = grun (to_list to_gop ops) in
+      L [of_nat st.grd.told; of_list of_n st.grd.delivered;
+         of_list (fun g -> match g with Some _ -> of_int 1 | None -> of_int 0) st.gens]
   | _ -> A "bad-request"
 let () = serve handle
